@@ -343,4 +343,7 @@ class C12(Prop):
             sim.stats["reached_expiry"] += 1
 
 
+from sim.prop import with_eager  # noqa: E402
+
+C12.tiers = with_eager(C12.tiers, [('history', 60000)])
 PROPS = {"C12": C12()}
